@@ -174,7 +174,7 @@ def main():
         mp = os.path.join(sd, "meta.json")
         if os.path.exists(mp):
             old = json.load(open(mp))
-            for k in ("needs_to_manifest", "summary"):
+            for k in ("needs_to_manifest", "summary", "superseded", "first_run_invalid", "rebased"):
                 if k in old:
                     meta[k] = old[k]
             if not confirm and old.get("confirmation"):
